@@ -478,7 +478,10 @@ def run_job(job, cpath, info, tier, defines=(), subdir=None, witness_mode=False,
         res['entry_pretty'] = info['functions'][w['entry']]['pretty']
         # content-addressed result cache: the woven C text is regenerated from /repo on every run; only a solver
         # run on byte-identical input (same woven text, same flags, same tools) is reused
-        ckey = sha(open(w['path']).read(), repr(list(defines)), repr(job.flags), str(job.unwind), job.solver,
+        # (source locations in comments name the work directory and the include root: not part of the program)
+        wtext = re.sub(r'/[^\s:*"]*/groups/\w+/[0-9a-f]{8,}/', '<GROUP>/', open(w['path']).read())
+        wtext = re.sub(r'/[^\s:*"]*?/include/tao/pegtl/', '<INCLUDE>/tao/pegtl/', wtext)
+        ckey = sha(wtext, repr(list(defines)), repr(job.flags), str(job.unwind), job.solver,
                    repr(CBMC_CHECKS), str(witness_mode), TOOLVER())
         cfile = os.path.join(WORK, 'cache', ckey + '.json')
         if os.path.exists(cfile) and not os.environ.get('VF_NOCACHE'):
